@@ -129,6 +129,26 @@ fn wrappers(rep: &mut Report) {
 }
 
 fn gen_results(g: &mut Xo) -> Vec<i64> {
+    // Now and then a long vector: aggregation code may switch strategy with the length
+    // (chunking, parallel reduction, unrolling), so lengths around powers of two, with
+    // remainders, and far beyond any small-vector fast path are part of the workload.
+    if g.chance(1, 400) {
+        let n = match g.below(4) {
+            0 => 9 + g.usize_below(300),
+            1 => *g.pick(&[255usize, 256, 257, 511, 512, 513, 1000, 1023, 1024, 1025, 2047, 2049, 4095, 4096, 4097, 5000, 8191, 8192, 8197]),
+            2 => 1 + g.usize_below(20_000),
+            _ => *g.pick(&[16_383usize, 16_385, 32_771, 65_537, 100_003]),
+        };
+        let bound = (1i64 << 61) / n as i64;
+        let style = g.below(3);
+        return (0..n)
+            .map(|i| match style {
+                0 => g.range(-bound, bound),
+                1 => i as i64 + 1, // every position contributes a different amount
+                _ => g.range(-20, 20),
+            })
+            .collect();
+    }
     let n = match g.below(5) {
         0 => 0,
         1 => 1,
@@ -142,6 +162,15 @@ fn gen_results(g: &mut Xo) -> Vec<i64> {
             _ => g.range(-20, 20),
         })
         .collect()
+}
+
+/// Witness rendering of a result vector: whole if short, otherwise length + both ends.
+fn short(v: &[i64]) -> vh_core::Value {
+    if v.len() <= 40 {
+        json!(v)
+    } else {
+        json!({"length": v.len(), "first": &v[..12], "last": &v[v.len() - 6..], "sum": v.iter().map(|x| i128::from(*x)).sum::<i128>().to_string()})
+    }
 }
 
 fn aggregates(seed: u64, rounds: usize, rep: &mut Report) {
@@ -162,27 +191,27 @@ fn aggregates(seed: u64, rounds: usize, rep: &mut Report) {
         rep.eval();
         let score_ok = |t: &TestResults<Score<i64>>| t.results.iter().map(|s| s.0).eq(a.iter().copied()) && t.total_result == Score(sum(&a)) && t.len() == a.len() && t.is_empty() == a.is_empty();
         if !score_ok(&sa) || !score_ok(&sa2) || !score_ok(&sa3) {
-            rep.violation("C15/TestResults/scores-total-or-order", || json!({"values": a, "from": format!("{sa:?}"), "collect": format!("{sa2:?}")}));
+            rep.violation("C15/TestResults/scores-total-or-order", || json!({"values": short(&a), "from": format!("{sa:?}"), "collect": format!("{sa2:?}")}));
         }
         let error_ok = |t: &TestResults<Error<i64>>| t.results.iter().map(|s| s.0).eq(a.iter().copied()) && t.total_result == Error(sum(&a));
         if !error_ok(&ea) || !error_ok(&ea2) {
-            rep.violation("C15/TestResults/errors-total-or-order", || json!({"values": a, "from": format!("{ea:?}")}));
+            rep.violation("C15/TestResults/errors-total-or-order", || json!({"values": short(&a), "from": format!("{ea:?}")}));
         }
         // i128 element type for the extremes
         let big: Vec<i128> = a.iter().map(|x| i128::from(*x) * (1 << 40)).collect();
         let tb: TestResults<Score<i128>> = big.clone().into();
         if tb.total_result != Score(big.iter().sum::<i128>()) || !tb.results.iter().map(|s| s.0).eq(big.iter().copied()) {
-            rep.violation("C15/TestResults/i128-total", || json!({"values": a}));
+            rep.violation("C15/TestResults/i128-total", || json!({"values": short(&a)}));
         }
         // comparisons delegate to the totals
         rep.eval();
         let want_s = sum(&a).cmp(&sum(&b));
         let want_e = sum(&b).cmp(&sum(&a));
         if sa.cmp(&sb) != want_s || observe(&sa, &sb) != expected(Some(want_s)) {
-            rep.violation("C15/TestResults/score-ordering", || json!({"a": a, "b": b, "cmp": format!("{:?}", sa.cmp(&sb)), "ops": format!("{:?}", observe(&sa, &sb))}));
+            rep.violation("C15/TestResults/score-ordering", || json!({"a": short(&a), "b": short(&b), "cmp": format!("{:?}", sa.cmp(&sb)), "ops": format!("{:?}", observe(&sa, &sb))}));
         }
         if ea.cmp(&eb) != want_e || observe(&ea, &eb) != expected(Some(want_e)) {
-            rep.violation("C15/TestResults/error-ordering", || json!({"a": a, "b": b, "cmp": format!("{:?}", ea.cmp(&eb)), "ops": format!("{:?}", observe(&ea, &eb))}));
+            rep.violation("C15/TestResults/error-ordering", || json!({"a": short(&a), "b": short(&b), "cmp": format!("{:?}", ea.cmp(&eb)), "ops": format!("{:?}", observe(&ea, &eb))}));
         }
         // individuals compare as their results do, whatever the genomes are
         let (g1, g2) = (g.next() % 3, g.next() % 3);
@@ -192,14 +221,14 @@ fn aggregates(seed: u64, rounds: usize, rep: &mut Report) {
         let jb = EcIndividual::new(g2, eb.clone());
         rep.eval();
         if ia.cmp(&ib) != want_s || observe(&ia, &ib) != expected(Some(want_s)) || ja.cmp(&jb) != want_e || observe(&ja, &jb) != expected(Some(want_e)) {
-            rep.violation("C15/EcIndividual/ordering", || json!({"a": a, "b": b, "genomes": [g1, g2], "scores": format!("{:?}", observe(&ia, &ib)), "errors": format!("{:?}", observe(&ja, &jb))}));
+            rep.violation("C15/EcIndividual/ordering", || json!({"a": short(&a), "b": short(&b), "genomes": [g1, g2], "scores": format!("{:?}", observe(&ia, &ib)), "errors": format!("{:?}", observe(&ja, &jb))}));
         }
         let t: EcIndividual<u64, u8> = (g1, 3u8).into();
         if t.genome != g1 || t.test_results != 3 {
             rep.violation("C15/EcIndividual/from-pair", || json!({}));
         }
         if rep.wants_sample() && a.len() >= 3 && b.len() >= 2 {
-            rep.sample(|| json!({"kind": "result vectors", "a": a, "b": b, "total_a": sum(&a), "total_b": sum(&b), "score_cmp": format!("{want_s:?}"), "error_cmp": format!("{want_e:?}")}));
+            rep.sample(|| json!({"kind": "result vectors", "a": short(&a), "b": short(&b), "total_a": sum(&a), "total_b": sum(&b), "score_cmp": format!("{want_s:?}"), "error_cmp": format!("{want_e:?}")}));
         }
     }
 }
@@ -302,7 +331,7 @@ pub fn run(args: &Args) -> i32 {
     rep.finish(
         args,
         "exploration",
-        "order laws exhaustively over all pairs and triples of a 10-value boundary pool (i64 extremes, -1, 0, 1, repeats) for Score, Error and TestResult; random result vectors (empty, one, many; values up to 2^59 so sums stay in range; an i128 variant) for TestResults / EcIndividual construction and comparison; seeded streams for IndividualGenerator / WithScorer / GenomeScorer with a recording scorer. distinct_nontrivial = distinct value pairs per type + distinct vector pairs + distinct scoring runs",
+        "order laws exhaustively over all pairs and triples of a 10-value boundary pool (i64 extremes, -1, 0, 1, repeats) for Score, Error and TestResult; random result vectors (empty, one, many, and every 400th up to 100003 results with lengths around powers of two; values up to 2^59 so sums stay in range; an i128 variant) for TestResults / EcIndividual construction and comparison; seeded streams for IndividualGenerator / WithScorer / GenomeScorer with a recording scorer. distinct_nontrivial = distinct value pairs per type + distinct vector pairs + distinct scoring runs",
         true,
         &[
             "== of TestResults / EcIndividual is not required to agree with cmp (two different result vectors with the same total are ordered Equal but are not equal); only the ordering is claimed",
